@@ -13,7 +13,7 @@ def rand_account(rng, simple=False):
     if rng.random() < 0.1:
         words = list(GANACHE)
     pw = "" if (simple or rng.random() < 0.5) else rng.choice(["TREZOR", "p@ss w0rd", "\u00e9\u00e8", "x" * 40, "-dash", "\U0001f600", "--password", "a=b", "=",
-                                                                "--mnemonic=x", " lead", "trail ", "'q'", "$HOME", "%s", "\\", "a\tb"])
+                                                                "--mnemonic=x", " lead", "trail ", "'q'", "$HOME", "%s", "\\", "a\tb", "hunter2\n", "pw\r\n", "\n", "pw\n\n", "\tpw", "pw\r"])
     r = rng.random()
     if simple or r < 0.3:
         sel = None
